@@ -14,6 +14,7 @@
  * along with this program.  If not, see <https://www.gnu.org/licenses/>.
  */
 
+use std::io::ErrorKind;
 use std::path::Path;
 use ignore::gitignore::{Gitignore, GitignoreBuilder};
 use log::info;
@@ -30,7 +31,13 @@ pub fn parse_ignore(source: &Path, config: &Config) -> Result<Option<Gitignore>>
         let mut builder = GitignoreBuilder::new(source);
         // Only a regular file is read; opening e.g. a FIFO of that
         // name would block for ever.
-        if gifile.is_file() {
+        let regular = match gifile.metadata() {
+            Ok(meta) => meta.is_file(),
+            Err(e) if e.kind() == ErrorKind::NotFound => false,
+            // Not being able to tell is an error, not "no .gitignore".
+            Err(e) => return Err(e.into()),
+        };
+        if regular {
             if let Some(err) = builder.add(&gifile) {
                 return Err(err.into());
             }
